@@ -33,9 +33,9 @@ def decodeOp (op : String) (b : Bytes) : String :=
   | "type" => let (t, n) := decodeType b; s!"ok {t.toNat} {n}"
   | "typesize" => showV (fun (x : UInt8) => toString x.toNat) (decodeTypeSize b)
   | "open" => showRes hexOf (openValue b)
-  | "parse" => showRes (fun (n : Nat) => toString n) (parseValue F (b.length + 1) b)
-  | "parselist" => showRes (fun (n : Nat) => toString n) (parseList F (b.length + 1) b)
-  | "parsemsg" => showRes (fun (n : Nat) => toString n) (parseMessage F (b.length + 1) b)
+  | "parse" => showRes (fun (n : Nat) => toString n) (parseValue F (2 * b.length + 2) b)
+  | "parselist" => showRes (fun (n : Nat) => toString n) (parseList F (2 * b.length + 2) b)
+  | "parsemsg" => showRes (fun (n : Nat) => toString n) (parseMessage F (2 * b.length + 2) b)
   | "walk" => walk F (b.length + 1) b
   | _ => "bad-op"
 
@@ -143,7 +143,7 @@ def rtOp (op arg : String) : String :=
 def c13Prefixes : List Bytes := [[0xfd], [0xfe, 0xfe], [0xff, 0xff, 0xff], [1, 2, 0xfd], [0x00], [7, 0xfe, 0xff, 0xfd, 3]]
 
 def c13Op (b : Bytes) : String :=
-  match parseValue F (b.length + 1) b with
+  match parseValue F (2 * b.length + 2) b with
   | .panic => "VIOL parse-panic"
   | .err _ _ => "rejected"
   | .ok n =>
@@ -155,14 +155,14 @@ def c13Op (b : Bytes) : String :=
       (match openValue b with
         | .ok o => if o == v then [] else ["open-differs"]
         | _ => ["open-fails"]) ++
-      (match parseValue F (v.length + 1) v with
+      (match parseValue F (2 * v.length + 2) v with
         | .ok m => if m == n then [] else ["reparse-size"]
         | _ => ["reparse-fails"]) ++
       (let w := walk F (v.length + 1) v
        (if (w.splitOn "!").length > 1 || (w.splitOn "PANIC").length > 1 then ["reread-error"] else []) ++
        (c13Prefixes.flatMap fun p =>
           let pb := p ++ v
-          (match parseValue F (pb.length + 1) pb with
+          (match parseValue F (2 * pb.length + 2) pb with
             | .ok m => if m == n then [] else ["prefix-parse-size"]
             | _ => ["prefix-parse-fails"]) ++
           (if walk F (pb.length + 1) pb == w then [] else ["prefix-walk-differs"])))
